@@ -14,7 +14,10 @@ def verdict_violations(pid, w, kinds=("cands", "seeds", "sets"), skip_ok=True):
         if kind in kinds and v != "ok":
             st = w["steps"][idx]
             item = next(x for x in st["meta"]["attr"] if x["id"] == nid)
-            what = {"cands": "cached candidates do not cover", "seeds": "cached seeds are not one-to-one with", "sets": "cached sets are not"}[kind]
+            if kind == "cands" and item["skip"]:
+                continue      # candidates of skip nodes are reduced by the exclusion rule; judged through 'skiprule'
+            what = {"cands": "cached candidates do not cover", "seeds": "cached seeds are not one-to-one with", "sets": "cached sets are not",
+                    "skiprule": "seeds of the skip node differ from the default method's documented exclusion rule applied to"}[kind]
             out.append({"sig": f"{kind}-{v.split(':')[0]}" + ("-skipnode" if item["skip"] else ""),
                         "what": f"step {idx}: node {nid} ({item['space']}, expanded={item['exp']}, skip={item['skip']}): {what} the attractors of the node w.r.t. its current successors: {v}; item={item}",
                         "step": idx})
@@ -37,10 +40,9 @@ def _attr_history_run(pid, tier, seed, kinds, count_q, count_t, pred, rule, cfg_
         pre = [json.loads(l) for l in open(corpus) if l.strip()]
         for c in pre:
             c["history"] = [tuple(o) for o in c["history"]]; c["attr"] = True
-    cases = pmap(P._fix_worker, cases)
     for c in cases:
         c["history"] = list(c["history"]) + list(final_ops)
-    cases = pre + cases
+    cases = pmap(P._fix_worker, pre + cases)
     ws = pmap(P._case_worker, cases)
     viol = harness_errors(ws, pid)
     stats = {"checked_items": 0, "with_complex_attractor": 0, "with_maa_candidate": 0, "raised_runtime": 0, "skip_nodes": 0}
@@ -114,3 +116,81 @@ def run_C01(tier, seed):
     return {"evaluations": len(cases), "distinct_nontrivial": summarize(ws, lambda w: len(w["attractors"]) > 1 or any(len(a) > 1 for a in w["attractors"])),
             "rule": "two-variable networks (every 4th in quick, all 256 in thorough) + random/modular networks with one complete strategy out of {bfs, dfs, block (3 option sets), scc, attractor-seed expansion, build}, then seeds for every expanded node; per-node verdict (seeds one-to-one with the node's attractors outside its successors) and global verdict (all seeds one-to-one with all attractors) by Checks.check_seeds; non-trivial = more than one attractor or a complex attractor",
             "samples": [sample_of(w) for w in good[80:83]], "violations": viol, "extra": {"stats": stats}}
+
+CFG_VALUES = [0, 1, 2, 3, 5, None]
+def cfg_gen_c08(rng):
+    cfg = {}
+    for k in ("nfvs_size_threshold", "attractor_candidates_limit", "retained_set_optimization_threshold", "minimum_simulation_budget"):
+        v = rng.choice(CFG_VALUES + [None, None])
+        if v is not None:
+            cfg[k] = v
+    return cfg
+
+@register("C08")
+def run_C08(tier, seed):
+    kinds = ("expand", "bfs", "min", "cands", "cands", "cands", "cands", "skipmin", "skip", "reclaim")
+    return _attr_history_run("C08", tier, seed, kinds, 400, 8000,
+        lambda w: verdict_violations("C08", w, kinds=("cands", "seeds")),
+        "random short histories (partial expansion, skip nodes) followed by candidate queries on arbitrary nodes with all 4 combinations of greedy-ASP / simulation minification and every numeric configuration field drawn from {0,1,2,3,5,default}; a RuntimeError is an accepted outcome; every returned (cached) candidate list must consist of full states of the node space covering every attractor of the node outside its successors (Checks.check_cover against brute-force attractors); non-trivial = at least one list was checked",
+        cfg_gen=cfg_gen_c08, max_len=(5, 8))
+
+def cfg_gen_c12(rng):
+    r = rng.random()
+    if r < 0.35:
+        return {"attractor_candidates_limit": 1, "retained_set_optimization_threshold": rng.choice([1, 1000])}
+    if r < 0.5:
+        return {"attractor_candidates_limit": rng.choice([2, 3])}
+    return {}
+
+@register("C12")
+def run_C12(tier, seed):
+    kinds = ("expand", "bfs", "dfs", "min", "sets", "sets", "sets", "seeds", "seedsfb", "seedsfb", "cands", "reclaim", "pickle", "skipmin")
+    def pred(w):
+        return verdict_violations("C12", w, kinds=("sets", "seeds", "skiprule"))
+    # "seedsfb" = seeds with symbolic_fallback=True; rewrite after generation
+    rng = random.Random(seed)
+    res = _attr_history_run("C12", tier, seed, tuple(k if k != "seedsfb" else "seeds" for k in kinds), 300, 5000, pred,
+        "random histories requesting attractor sets before/after seeds and candidates, after reclamation and pickling, on expanded, unexpanded and skip nodes; a third of the cases run with attractor_candidates_limit=1 so that seeds(symbolic_fallback=True) takes the fully symbolic fallback; every cached set list must be, in seed order, the complete attractors of the seeds (Checks.check_sets) and every seed list one-to-one with the brute-force attractors of the node, so fallback and default method agree through the common oracle; non-trivial = at least one cached item checked",
+        cfg_gen=cfg_gen_c12)
+    return res
+
+def _maa_list(w):
+    mins = w["mintraps"]
+    def inside(a, sp):
+        return all(all(c == "*" or c == x for c, x in zip(sp, s)) for s in a)
+    return [a for a in w["attractors"] if not any(inside(a, m) for m in mins)]
+
+@register("C05")
+def run_C05(tier, seed):
+    kinds = ("expand", "bfs", "dfs", "min", "skipmin", "skipmin", "skip", "cands", "seeds")
+    def pred(w):
+        out = verdict_violations("C05", w, kinds=("seeds", "skiprule"))
+        if out:
+            return out
+        last = w["steps"][-1]
+        if last["meta"] is None:
+            return out
+        items = last["meta"].get("attr", [])
+        ns, _ = parse_dump(last["real"])
+        if any(not x["exp"] for x in ns) or any("seeds" not in it for it in items) or len(items) != len(ns):
+            return out          # not every node expanded/skipped and queried: clause does not apply
+        if not any(x["skip"] for x in ns):
+            return out
+        allseeds = [s for it in items for s in it["seeds"]]
+        lost = [a for a in w["attractors"] if not any(s in a for s in allseeds)]
+        if lost:
+            maa = _maa_list(w)
+            kind = "maa" if all(a in maa for a in lost) else "non-maa"
+            # does every skip node conform to the documented exclusion rule? then the loss is the known design-level defect D4
+            rule_ok = all(v == "ok" for (_, _, k, v) in w["verdicts"] if k == "skiprule")
+            if rule_ok and kind == "maa":
+                kind = "maa-by-documented-skip-exclusion-rule"
+            out.append({"sig": f"attractor-lost-{kind}", "what": f"{len(lost)} attractor(s) reported by no node after skipping, e.g. {lost[0][:4]}; nodes={[(x['space'], x['skip']) for x in ns]}"})
+        elif not _maa_list(w):
+            dup = [a for a in w["attractors"] if sum(1 for s in allseeds if s in a) > 1]
+            if dup:
+                out.append({"sig": "attractor-reported-twice-no-maa", "what": f"network without motif-avoidant attractor: attractor {dup[0][:4]} reported more than once"})
+        return out
+    return _attr_history_run("C05", tier, seed, kinds, 300, 5000, pred,
+        "random early-stopped histories, then skip_remaining (or minimal-space expansion with skip_ignored / skip_to_minimal), then seeds on EVERY node; seeds of skip nodes must be sound and duplicate-free, of ordinary nodes exact; every brute-force attractor must be reported by some node; without motif-avoidant attractors exactly once; non-trivial = at least one cached item checked",
+        final_ops=(("skiprem",), ("seeds_every",)), nmax=(6, 8))
